@@ -7,6 +7,7 @@
 package main
 
 import (
+	"bytes"
 	"encoding/json"
 	"fmt"
 	"math/bits"
@@ -168,14 +169,22 @@ func ship[T any](run *core.Run, comp string, x *T, par *Params, corrupt func([]b
 		return nil, false
 	}
 	intact := corrupt == nil
-	if corrupt != nil {
-		b = corrupt(append([]byte{}, b...))
-	}
 	y := new(T)
 	if n, ok := any(y).(interface{ New(*Params) *T }); ok {
 		n.New(par)
 	} else if n, ok := any(y).(interface{ New(*Params, uint) *T }); ok {
 		n.New(par, extra[0])
+	}
+	// the sender queues this encoding and encodes something else (here: an empty message of the
+	// same type) before the first is sent: what a marshaler returned stays what it was
+	keep := append([]byte{}, b...)
+	core.Try(func() { _, _ = any(y).(marshaler).MarshalBinary() })
+	if !bytes.Equal(b, keep) {
+		run.Violate(comp, "returned-encoding-overwritten-by-a-later-call", "%T: the %d bytes returned by MarshalBinary changed when another message was marshalled", x, len(b))
+		return nil, false
+	}
+	if corrupt != nil {
+		b = corrupt(append([]byte{}, b...))
 	}
 	var uerr error
 	rbuf := append([]byte{}, b...)
